@@ -81,3 +81,178 @@ Proof.
   apply andb_prop in H. destruct H as (H1 & H2). exists m'. split; [reflexivity|].
   split; [now apply imap_eqb_eq|now apply mask_eqb_eq].
 Qed.
+
+(** ** the listings and the remaining constructors, for every mask of length <= 10 *)
+From CG3 Require Import Spec.IndelMapStringOps.
+
+Definition pair_dec : forall x y : Z * Z, {x = y} + {x <> y}.
+Proof. decide equality; apply Z.eq_dec. Defined.
+Definition pairs_eqb (a b : list (Z * Z)) : bool := if list_eq_dec pair_dec a b then true else false.
+Lemma pairs_eqb_eq a b : pairs_eqb a b = true -> a = b.
+Proof. unfold pairs_eqb. destruct (list_eq_dec pair_dec a b); congruence. Qed.
+
+(** zero-length entries of a coordinate listing carry no position *)
+Definition nonempty (l : list (Z * Z)) : list (Z * Z) := filter (fun se => negb (fst se =? snd se)) l.
+
+Definition has_gap (k : list bool) : bool := existsb negb k.
+Definition has_residue (k : list bool) : bool := existsb (fun b => b) k.
+
+Definition listings_ok (k : list bool) : bool :=
+  let m := from_mask k in
+  pairs_eqb (get_gap_align_coordinates m) (gap_runs k)
+  && pairs_eqb (get_gap_coordinates m) (gap_insertions k)
+  && (if has_gap k then pairs_eqb (nongap m) (seg_runs k) else true)
+  && (if has_residue k
+      then match from_aligned_segments (seg_runs k) (zlen k) with Ok m' => imap_eqb m' m | Err _ => false end
+      else true)
+  && match gap_coords_to_map (gap_insertions k) (count_res k) with Ok m' => imap_eqb m' m | Err _ => false end.
+
+Lemma listings_ok_upto_10 : forallb listings_ok (masks_upto 10) = true.
+Proof. vm_compute. reflexivity. Qed.
+
+Lemma listings_bounded (k : list bool) : (length k <= 10)%nat ->
+  let m := from_mask k in
+  get_gap_align_coordinates m = gap_runs k /\
+  get_gap_coordinates m = gap_insertions k /\
+  (has_gap k = true -> nongap m = seg_runs k) /\
+  (has_residue k = true -> from_aligned_segments (seg_runs k) (zlen k) = Ok m) /\
+  gap_coords_to_map (gap_insertions k) (count_res k) = Ok m.
+Proof.
+  intros Hk m. pose proof listings_ok_upto_10 as H. rewrite forallb_forall in H.
+  specialize (H k (masks_upto_complete 10 k Hk)). unfold listings_ok in H. fold m in H.
+  repeat (apply andb_prop in H; destruct H as (H & ?)).
+  split; [now apply pairs_eqb_eq|]. split; [now apply pairs_eqb_eq|]. split; [|split].
+  - intros E. rewrite E in *. now apply pairs_eqb_eq.
+  - intros E. rewrite E in *. destruct (from_aligned_segments (seg_runs k) (zlen k)) as [m'|]; [|discriminate].
+    f_equal. now apply imap_eqb_eq.
+  - destruct (gap_coords_to_map (gap_insertions k) (count_res k)) as [m'|]; [|discriminate].
+    f_equal. now apply imap_eqb_eq.
+Qed.
+
+(** ** the binary operations, for every pair of masks of length <= 6 *)
+
+Definition minus_ok (k1 k2 : list bool) : bool :=
+  match minus_gaps (from_mask k1) (from_mask k2) with
+  | Ok m => imap_eqb m (from_mask (mask_minus k1 k2)) | Err _ => false end.
+Definition shared_ok (k1 k2 : list bool) : bool :=
+  match shared_gaps (from_mask k1) (from_mask k2) with
+  | Ok l => pairs_eqb l (mask_shared k1 k2) | Err _ => false end.
+Definition merge_ok (k1 k2 : list bool) : bool :=
+  match merge_maps (from_mask k1) (from_mask k2) None with
+  | Ok m => imap_eqb m (from_mask (mask_merge k1 k2)) | Err _ => false end.
+
+Definition binary_ok (p : list bool * list bool) : bool :=
+  let (k1, k2) := p in
+  (if Nat.eqb (length k1) (length k2) then minus_ok k1 k2 && shared_ok k1 k2 else true)
+  && (if count_res k1 =? count_res k2 then merge_ok k1 k2 else true).
+
+Lemma binary_ok_upto_6 : forallb binary_ok (list_prod (masks_upto 6) (masks_upto 6)) = true.
+Proof. vm_compute. reflexivity. Qed.
+
+Lemma binary_bounded (k1 k2 : list bool) : (length k1 <= 6)%nat -> (length k2 <= 6)%nat ->
+  (length k1 = length k2 ->
+     minus_gaps (from_mask k1) (from_mask k2) = Ok (from_mask (mask_minus k1 k2)) /\
+     shared_gaps (from_mask k1) (from_mask k2) = Ok (mask_shared k1 k2)) /\
+  (count_res k1 = count_res k2 ->
+     merge_maps (from_mask k1) (from_mask k2) None = Ok (from_mask (mask_merge k1 k2))).
+Proof.
+  intros H1 H2. pose proof binary_ok_upto_6 as H. rewrite forallb_forall in H.
+  specialize (H (k1, k2) (in_prod _ _ _ _ (masks_upto_complete 6 k1 H1) (masks_upto_complete 6 k2 H2))).
+  unfold binary_ok in H. apply andb_prop in H. destruct H as (Ha & Hb). split.
+  - intros E. rewrite E, Nat.eqb_refl in Ha. apply andb_prop in Ha. destruct Ha as (Hm & Hs).
+    unfold minus_ok in Hm. unfold shared_ok in Hs. split.
+    + destruct (minus_gaps (from_mask k1) (from_mask k2)) as [m|]; [|discriminate]. f_equal. now apply imap_eqb_eq.
+    + destruct (shared_gaps (from_mask k1) (from_mask k2)) as [l|]; [|discriminate]. f_equal. now apply pairs_eqb_eq.
+  - intros E. rewrite E, Z.eqb_refl in Hb. unfold merge_ok in Hb.
+    destruct (merge_maps (from_mask k1) (from_mask k2) None) as [m|]; [|discriminate]. f_equal. now apply imap_eqb_eq.
+Qed.
+
+(** ** joining segments, for every mask of length <= 6 and every list of at
+    most 3 sorted, non-empty, non-overlapping (possibly abutting) segments *)
+
+Fixpoint seglists (fuel : nat) (n start : Z) : list (list (Z * Z)) :=
+  match fuel with
+  | O => [[]]
+  | S f => [] :: flat_map (fun a => flat_map (fun b => map (cons (a, b)) (seglists f n b))
+                                            (zrange (a + 1) (n + 1)))
+                          (zrange start n)
+  end.
+
+Fixpoint segs_ok (start n : Z) (cs : list (Z * Z)) : Prop :=
+  match cs with
+  | [] => True
+  | (a, b) :: t => start <= a /\ a < b /\ b <= n /\ segs_ok b n t
+  end.
+
+Lemma seglists_complete fuel : forall n start cs,
+  (length cs <= fuel)%nat -> segs_ok start n cs -> In cs (seglists fuel n start).
+Proof.
+  induction fuel as [|f IH]; intros n start cs Hl Hok.
+  - destruct cs; [left; reflexivity|cbn in Hl; lia].
+  - destruct cs as [|(a, b) t]; [left; reflexivity|]. cbn [segs_ok] in Hok. destruct Hok as (A & B & D & E).
+    right. apply in_flat_map. exists a. split; [apply zrange_In; lia|].
+    apply in_flat_map. exists b. split; [apply zrange_In; lia|].
+    apply in_map. apply IH; [cbn in Hl; lia|exact E].
+Qed.
+
+Definition join_ok (k : list bool) (cs : list (Z * Z)) : bool :=
+  match joined_segments (from_mask k) cs with
+  | Ok m => imap_eqb m (from_mask (mask_join k cs)) | Err _ => false end.
+
+Lemma join_ok_upto_6 :
+  forallb (fun k => forallb (join_ok k) (seglists 3 (zlen k) 0)) (masks_upto 6) = true.
+Proof. vm_compute. reflexivity. Qed.
+
+Lemma join_bounded (k : list bool) (cs : list (Z * Z)) :
+  (length k <= 6)%nat -> (length cs <= 3)%nat -> segs_ok 0 (zlen k) cs ->
+  joined_segments (from_mask k) cs = Ok (from_mask (mask_join k cs)).
+Proof.
+  intros Hk Hc Hok. pose proof join_ok_upto_6 as H. rewrite forallb_forall in H.
+  specialize (H k (masks_upto_complete 6 k Hk)). rewrite forallb_forall in H.
+  specialize (H cs (seglists_complete 3 _ _ cs Hc Hok)). unfold join_ok in H.
+  destruct (joined_segments (from_mask k) cs) as [m|]; [|discriminate]. f_equal. now apply imap_eqb_eq.
+Qed.
+
+(** ** where the faithful model violates the unguarded statements *)
+
+(** a stop beyond the end is not clamped (Python: [s[0:9] = s] for a 3-long [s]) *)
+Lemma slice_beyond_len_witness :
+  exists k b m', b > zlen k /\
+    getitem_slice (from_mask k) (Some 0) (Some b) = Ok m' /\
+    abs m' <> msub k 0 b /\ len m' > zlen k.
+Proof.
+  exists [true; false; true], 9, (mk_imap [1] [1] 8). vm_compute. repeat split; congruence.
+Qed.
+
+(** [nongap] reports no ungapped segment at all for a gap-free sequence *)
+Lemma nongap_gapfree_witness :
+  exists k, has_gap k = false /\ seg_runs k = [(0, 1)] /\ nongap (from_mask k) = [].
+Proof. exists [true]. vm_compute. repeat split. Qed.
+
+(** [get_coordinates] drops the last ungapped segment of ["-x-x"] *)
+Lemma get_coordinates_witness :
+  exists k, nonempty (seq_segments k) = [(0, 1); (1, 2)] /\
+            nonempty (get_coordinates (from_mask k)) = [(0, 1)].
+Proof. exists [false; true; false; true]. vm_compute. repeat split. Qed.
+
+(** [get_coordinates] is right when the map has fewer than two gaps or the
+    string ends in a gap (every mask of length <= 10) *)
+Definition ends_gap (k : list bool) : bool := match rev k with false :: _ => true | _ => false end.
+
+Definition coords_ok (k : list bool) : bool :=
+  if (num_gaps (from_mask k) <? 2) || ends_gap k
+  then pairs_eqb (nonempty (get_coordinates (from_mask k))) (nonempty (seq_segments k)) else true.
+
+Lemma coords_ok_upto_10 : forallb coords_ok (masks_upto 10) = true.
+Proof. vm_compute. reflexivity. Qed.
+
+Lemma coords_bounded (k : list bool) : (length k <= 10)%nat ->
+  num_gaps (from_mask k) < 2 \/ ends_gap k = true ->
+  nonempty (get_coordinates (from_mask k)) = nonempty (seq_segments k).
+Proof.
+  intros Hk Hg. pose proof coords_ok_upto_10 as H. rewrite forallb_forall in H.
+  specialize (H k (masks_upto_complete 10 k Hk)). unfold coords_ok in H.
+  destruct ((num_gaps (from_mask k) <? 2) || ends_gap k) eqn:E.
+  - now apply pairs_eqb_eq.
+  - apply orb_false_elim in E. destruct E as (E1 & E2). destruct Hg as [Hg|Hg]; [lia|congruence].
+Qed.
